@@ -58,6 +58,27 @@ pub fn exec(op: &str, a: &Value) -> Option<Value> {
             js::i(d, "h"), js::i(d, "mi"), js::i(d, "s"), js::i(d, "ms"), js::i(d, "us"), js::i(d, "ns"))) }, p_instant),
         "RealZone.probe" => real_zone_probe(a),
         "TzifBytes.probe" => tzif_bytes_probe(a),
+        // the public formatter records of temporal_rs::parsers, with any field values (their fields are public): writing never panics
+        "FmtbX.date" => run(|| { use temporal_rs::parsers::*; let (y, m, d) = (js::i(a, "y") as i32, js::i(a, "m") as u8, js::i(a, "d") as u8);
+            let cal = FormattableCalendar { show: DisplayCalendar::Always, calendar: "iso8601" };
+            let _ = FormattableDate(y, m, d).to_string();
+            let _ = FormattableYearMonth { date: FormattableDate(y, m, d), calendar: FormattableCalendar { show: DisplayCalendar::Auto, calendar: "gregory" } }.to_string();
+            let _ = FormattableMonthDay { date: FormattableDate(y, m, d), calendar: cal }.to_string();
+            let _ = FormattableIxdtf { date: Some(FormattableDate(y, m, d)), time: None, utc_offset: None, timezone: None, calendar: None }.to_string();
+            Ok(()) }, |_| json!(null)),
+        "FmtbX.time" => run(|| { use temporal_rs::parsers::*; let p = match js::i(a, "prec") { -1 => Precision::Auto, -2 => Precision::Minute, n => Precision::Digit(n as u8) };
+            let t = || FormattableTime { hour: js::i(a, "h") as u8, minute: js::i(a, "mi") as u8, second: js::i(a, "s") as u8, nanosecond: js::i(a, "ns") as u32, precision: p, include_sep: js::i(a, "h") % 2 == 0 };
+            let _ = t().to_string();
+            let _ = FormattableOffset { sign: if js::i(a, "s") % 2 == 0 { Sign::Positive } else { Sign::Negative }, time: t() }.to_string();
+            Ok(()) }, |_| json!(null)),
+        "FmtbX.duration" => run(|| { use temporal_rs::parsers::*; let v = |k: &str| -> u64 { if js::i(a, k) < 0 { u64::MAX } else { js::i(a, k) as u64 } }; let w = |k: &str| -> u32 { if js::i(a, k) < 0 { u32::MAX } else { js::i(a, k) as u32 } };
+            let fr = if js::i(a, "fr") == 0 { None } else { Some(w("fr")) };
+            let time = match js::s(a, "form") { "hours" => Some(FormattableTimeDuration::Hours(v("h"), fr)), "minutes" => Some(FormattableTimeDuration::Minutes(v("h"), v("mi"), fr)),
+                "seconds" => Some(FormattableTimeDuration::Seconds(v("h"), v("mi"), v("s"), fr)), _ => None };
+            let p = match js::i(a, "prec") { -1 => Precision::Auto, -2 => Precision::Minute, n => Precision::Digit(n as u8) };
+            let date = if js::i(a, "date") == 0 { None } else { Some(FormattableDateDuration { years: w("y"), months: w("y"), weeks: w("y"), days: v("d") }) };
+            let _ = FormattableDuration { precision: p, sign: if js::i(a, "prec") % 2 == 0 { Sign::Negative } else { Sign::Positive }, date, time }.to_string();
+            Ok(()) }, |_| json!(null)),
         "MiscX.deepZoneId" => run(|| { let n = js::i(a, "n") as usize; let s = format!("{}a", "a/".repeat(n.saturating_sub(1)));
             TimeZone::try_from_identifier_str(&s).map(|_| ()).and(TimeZone::try_from_str(&s).map(|_| ())) }, |_| json!(null)),
         // year given as a bare `year` (era = false) or as the era year of the calendar's first listed era where it has one
